@@ -227,6 +227,8 @@ pub(crate) struct State {
     pub spurious_left: u32,
 
     next_obj: usize,
+    ptr_ranges: Vec<(usize, usize, u32)>,
+    next_ptr: u32,
     pub live: HashSet<usize>,
     pub mutex_held: HashMap<usize, bool>,
     pub chans: HashMap<usize, ChanModel>,
@@ -243,6 +245,61 @@ impl State {
         let id = 0x5eed_0000_0000 + self.next_obj;
         self.live.insert(id);
         id
+    }
+
+    /// Declares that addresses `base..base + len` are called `id` in events.
+    pub fn ptr_register(&mut self, base: usize, len: usize, id: u32) {
+        self.ptr_ranges.push((base, len.max(1), id));
+    }
+
+    /// Small stable name of an address for events (0 = null). Addresses
+    /// nobody registered are numbered from 1000 in order of appearance.
+    pub fn ptr_id(&mut self, addr: usize) -> u128 {
+        if addr == 0 {
+            return 0;
+        }
+        for &(base, len, id) in &self.ptr_ranges {
+            if addr >= base && addr - base < len {
+                return id as u128;
+            }
+        }
+        self.next_ptr += 1;
+        let id = 999 + self.next_ptr;
+        self.ptr_ranges.push((addr, 1, id));
+        id as u128
+    }
+
+    /// A two-way choice that is not a choice of thread (e.g. whether a weak
+    /// compare-exchange fails spuriously). Recorded like a scheduling
+    /// decision, so tapes and replays reproduce it; `true` at most
+    /// `spurious_left` times per run.
+    pub fn flip(&mut self) -> bool {
+        if self.spurious_left == 0 {
+            return false;
+        }
+        let yes = match &self.source {
+            Source::Replay { tids } => {
+                let v = tids.get(self.replay_pos).copied().unwrap_or(1000);
+                self.replay_pos += 1;
+                v == 1001
+            }
+            Source::Tape { choices } => {
+                let idx = choices.get(self.tape_pos).copied().unwrap_or(0).min(1);
+                self.tape_pos += 1;
+                self.decisions.push(Decision {
+                    options: 2,
+                    chosen: idx,
+                    current_enabled: false,
+                });
+                idx == 1
+            }
+            Source::Random { .. } => self.next_rand() % 4 == 0,
+        };
+        self.schedule.push(1000 + yes as u32);
+        if yes {
+            self.spurious_left -= 1;
+        }
+        yes
     }
 
     pub fn short(id: usize) -> u128 {
@@ -485,6 +542,8 @@ where
             rng: seed.wrapping_mul(0x9E37_79B9_7F4A_7C15) | 1,
             spurious_left: config.spurious,
             next_obj: 0,
+            ptr_ranges: Vec::new(),
+            next_ptr: 0,
             live: HashSet::new(),
             mutex_held: HashMap::new(),
             chans: HashMap::new(),
